@@ -119,6 +119,8 @@ def register(E):
             return VBool(z3.And(a.isnone == b.isnone, z3.Implies(z3.Not(a.isnone), I.eq(ctx, a.val, b.val))))
         return VBool(I.identical(ctx, a, b))
 
+    E.specns['same_opt'].keep_opt = True
+
     @E.spec('merged_resources')
     def merged_resources(I, ctx, res, lower, upper):
         """res == lower (+) upper, right wins, identity preserved"""
@@ -198,7 +200,7 @@ def register(E):
         raises={'builtins.NameError': None, 'builtins.TypeError': None, 'builtins.IndexError': None,
                 'builtins.ValueError': None, 'builtins.RuntimeError': None},
         may_raise_any=True,     # a user render factory may raise anything
-        prop=['C01', 'C04', 'C10', 'C11']))
+        heavy=True, prop=['C01', 'C04', 'C07', 'C10', 'C11']))
 
 
 def register_more(E):
